@@ -339,6 +339,46 @@ pub const MY6G: [u8; 16] = [0xfd, 0, 0, 0, 0, 0, 0, 0, 0, 0, 0, 0, 0, 0, 0x12, 0
 pub const PEER6G: [u8; 16] = [0xfd, 0, 0, 0, 0, 0, 0, 0, 0, 0, 0, 0, 0, 0, 0x56, 0x78];
 const LBUF: usize = 1500;
 
+/// Address pairs (node A, node B). 0: fe80::/64 with the IID derived from the hardware address
+/// (both halves elidable in IPHC); 1: fd00::/64 (carried in line); 2..4: link-local-LOOKING
+/// addresses with a non-zero bit among bits 10..63, which stateless IPHC cannot compress
+/// losslessly (RFC 6282 3.2.2 elides the fe80::/64 prefix only): 2: fe80:0:0:1::/64 with derived
+/// IID, 3: fe80:1::/64 with an IID not derived from the hardware address, 4: febf::/64 derived.
+pub fn addr_pair(mode: u8) -> ([u8; 16], [u8; 16]) {
+    let mk = |p: [u8; 8], iid: [u8; 8]| {
+        let mut a = [0u8; 16];
+        a[..8].copy_from_slice(&p);
+        a[8..].copy_from_slice(&iid);
+        a
+    };
+    let (i1, i2) = ([0, 0, 0, 0, 0, 0, 0, 1], [0, 0, 0, 0, 0, 0, 0, 2]);
+    match mode {
+        0 => (MY6, PEER6),
+        1 => (MY6G, PEER6G),
+        2 => (mk([0xfe, 0x80, 0, 0, 0, 0, 0, 1], i1), mk([0xfe, 0x80, 0, 0, 0, 0, 0, 1], i2)),
+        3 => (mk([0xfe, 0x80, 0, 1, 0, 0, 0, 0], [0, 0, 0, 0, 0, 0, 0x12, 0x34]), mk([0xfe, 0x80, 0, 1, 0, 0, 0, 0], [0, 0, 0, 0, 0, 0, 0x56, 0x78])),
+        _ => (mk([0xfe, 0xbf, 0, 0, 0, 0, 0, 0], i1), mk([0xfe, 0xbf, 0, 0, 0, 0, 0, 0], i2)),
+    }
+}
+pub fn addr_name(mode: u8) -> &'static str {
+    match mode {
+        0 => "fe80::/64, IID from hw address",
+        1 => "fd00::/64",
+        2 => "fe80:0:0:1::/64, IID from hw address",
+        3 => "fe80:1::/64, IID not from hw address",
+        _ => "febf::/64, IID from hw address",
+    }
+}
+/// addresses configured on node `which` (0 = A, 1 = B)
+fn node_addrs(mode: u8, which: usize) -> Vec<[u8; 16]> {
+    if mode <= 1 {
+        // as before: both the fe80::/64 and the fd00::/64 address
+        return if which == 0 { vec![MY6, MY6G] } else { vec![PEER6, PEER6G] };
+    }
+    let (a, b) = addr_pair(mode);
+    vec![if which == 0 { a } else { b }]
+}
+
 pub struct Node {
     pub dev: Dev,
     pub iface: Interface,
@@ -420,8 +460,8 @@ impl LStats {
 #[derive(Clone, Debug)]
 pub struct LScn {
     pub kind: String,
-    /// false: link-local addresses (elided in IPHC); true: fd00::/64 addresses (carried in-line)
-    pub global: bool,
+    /// address pair in use, see `addr_pair`
+    pub addr: u8,
     pub sizes: Vec<usize>,
     pub caps: Caps,
     /// DeviceCapabilities::max_burst_size of both devices (0 = None); TCP rx buffers are 16 KiB then
@@ -429,7 +469,7 @@ pub struct LScn {
 }
 impl LScn {
     fn to_json(&self) -> Value {
-        json!({"part":"b6","kind":self.kind,"global":self.global,"sizes":self.sizes,"caps":self.caps.to_json(),"max_burst_size":self.burst})
+        json!({"part":"b6","kind":self.kind,"addr":self.addr,"addr_name":addr_name(self.addr),"sizes":self.sizes,"caps":self.caps.to_json(),"max_burst_size":self.burst})
     }
 }
 
@@ -446,8 +486,8 @@ pub struct LoWorld {
 impl LoWorld {
     pub fn new(s: &LScn) -> LoWorld {
         LoWorld {
-            a: Node::new(MY_LL, &[MY6, MY6G], s.caps, true, s.burst),
-            b: Node::new(PEER_LL, &[PEER6, PEER6G], s.caps, false, s.burst),
+            a: Node::new(MY_LL, &node_addrs(s.addr, 0), s.caps, true, s.burst),
+            b: Node::new(PEER_LL, &node_addrs(s.addr, 1), s.caps, false, s.burst),
             now_ms: 1000,
             mon: [Reasm::default(), Reasm::default()],
             st: LStats::default(),
@@ -536,6 +576,35 @@ impl LoWorld {
     }
 }
 
+/// hand-built unsolicited neighbor advertisement (override) from `from` to `to`, carried with both
+/// 128-bit addresses in line (lossless for any address), so that the neighbor caches are filled
+/// even if the nodes' own neighbor discovery exchange is not accepted by the peer
+fn na_frame(from_ll: &[u8; 8], from: &[u8; 16], to_ll: &[u8; 8], to: &[u8; 16]) -> Vec<u8> {
+    let mut icmp = vec![0u8; 40];
+    icmp[0] = 136;
+    icmp[4] = 0x20; // override
+    icmp[8..24].copy_from_slice(from);
+    icmp[24] = 2; // target link-layer address option, 2 x 8 octets
+    icmp[25] = 2;
+    icmp[26..34].copy_from_slice(from_ll);
+    let c = l4_cksum(from, to, 58, &icmp);
+    icmp[2] = (c >> 8) as u8;
+    icmp[3] = c as u8;
+    let mut f = vec![0x41, 0xcc, 0x55, 0xef, 0xbe];
+    let mut d = *to_ll;
+    d.reverse();
+    f.extend_from_slice(&d);
+    let mut s = *from_ll;
+    s.reverse();
+    f.extend_from_slice(&s);
+    // IPHC: TF elided, next header in line, hop limit 255, SAM = DAM = 00 (128 bits in line)
+    f.extend_from_slice(&[0x7b, 0x00, 58]);
+    f.extend_from_slice(from);
+    f.extend_from_slice(to);
+    f.extend_from_slice(&icmp);
+    f
+}
+
 fn pat(size: usize, salt: u8) -> Vec<u8> {
     (0..size).map(|i| (i as u8).wrapping_mul(13).wrapping_add(salt) | 1).collect()
 }
@@ -544,7 +613,8 @@ pub fn run_scn(s: &LScn, verbose: bool) -> LStats {
     let mut w = LoWorld::new(s);
     w.verbose = verbose;
     let caps = s.caps;
-    let (a_addr, b_addr): (&[u8], &[u8]) = if s.global { (&MY6G, &PEER6G) } else { (&MY6, &PEER6) };
+    let (aa, ba) = addr_pair(s.addr);
+    let (a_addr, b_addr): (&[u8], &[u8]) = (&aa, &ba);
     // warm-up: neighbor discovery in both directions via one small echo each way
     for _ in 0..6 {
         let e = build_echo(b_addr, a_addr, true, ICMP_IDENT, 0, &[1, 2, 3]);
@@ -563,6 +633,13 @@ pub fn run_scn(s: &LScn, verbose: bool) -> LStats {
             break;
         }
     }
+    // after the nodes' own neighbor discovery (observed and judged above) make sure both caches
+    // are filled, so that data packets are emitted and judged even if that exchange failed
+    w.a.dev.rx.push_back(na_frame(&PEER_LL, &ba, &MY_LL, &aa));
+    w.b.dev.rx.push_back(na_frame(&MY_LL, &aa, &PEER_LL, &ba));
+    w.settle(&caps);
+    while w.b.sockets.get_mut::<icmp::Socket>(w.b.icmp).recv().is_ok() {}
+    while w.a.sockets.get_mut::<icmp::Socket>(w.a.icmp).recv().is_ok() {}
     let mut tcp_up = false;
     if s.kind == "tcp" {
         let r = {
@@ -575,7 +652,9 @@ pub fn run_scn(s: &LScn, verbose: bool) -> LStats {
         w.settle(&caps);
         tcp_up = w.b.sockets.get::<tcp::Socket>(w.b.tcp).state() == tcp::State::Established;
         if !tcp_up {
-            w.st.errors.push("6lowpan tcp handshake did not complete".into());
+            // a consequence of whatever made the handshake frames unacceptable to the peer (their
+            // checksums are judged by the monitor): counted; vacuity is guarded in run()
+            w.st.inc("tcp: handshake NOT completed".into());
         }
     }
     for (k, &size) in s.sizes.iter().enumerate() {
@@ -686,21 +765,23 @@ pub fn run(rep: &mut Report, tier: Tier) {
     let thorough = tier == Tier::Thorough;
     let dense = if thorough { 420 } else { 330 };
     let mut list = vec![];
-    for global in [false, true] {
+    for addr in 0..=4u8 {
         for kind in ["echo", "udp", "udp-closed", "tcp"] {
             let big: &[usize] = match kind {
                 "tcp" => &[500, 999, 1000, 1219, 1220, 1221, 2000],
                 _ => &[500, 777, 1000, 1001, 1200, 1231, 1232],
             };
-            list.push(LScn { kind: kind.into(), global, sizes: size_sequence(dense, big), caps: Caps::DEFAULT, burst: 0 });
-            if kind == "tcp" {
+            // the link-local-looking pairs outside fe80::/64 get a shorter (still 1..4+ fragments) sequence
+            let d = if addr <= 1 { dense } else if thorough { 260 } else { 130 };
+            list.push(LScn { kind: kind.into(), addr, sizes: size_sequence(d, big), caps: Caps::DEFAULT, burst: 0 });
+            if kind == "tcp" && addr <= 1 {
                 for burst in [1usize, 4] {
-                    list.push(LScn { kind: kind.into(), global, sizes: size_sequence(if thorough { 200 } else { 120 }, &[500, 1219, 1220]), caps: Caps::DEFAULT, burst });
+                    list.push(LScn { kind: kind.into(), addr, sizes: size_sequence(if thorough { 200 } else { 120 }, &[500, 1219, 1220]), caps: Caps::DEFAULT, burst });
                 }
             }
             if thorough {
                 // tx-only capabilities: emitted checksums must still verify
-                list.push(LScn { kind: kind.into(), global, sizes: size_sequence(200, big), caps: Caps([2; 5]), burst: 0 });
+                list.push(LScn { kind: kind.into(), addr, sizes: size_sequence(200, big), caps: Caps([2; 5]), burst: 0 });
             }
         }
     }
@@ -723,6 +804,14 @@ pub fn run(rep: &mut Report, tier: Tier) {
     for e in &st.errors {
         rep.machinery_errors.push(format!("(b/6lowpan) {}", e));
     }
+    // vacuity guard: without any violation every scenario must have delivered its traffic
+    if st.viols.is_empty() {
+        for (k, v) in &st.counts {
+            if k.contains("NOT") || k.contains("INCOMPLETE") {
+                rep.machinery_errors.push(format!("(b/6lowpan) {} x{} although no emitted datagram was judged invalid", k, v));
+            }
+        }
+    }
     if st.datagrams == 0 {
         rep.machinery_errors.push("(b/6lowpan) no datagram observed".into());
     }
@@ -733,7 +822,7 @@ pub fn run(rep: &mut Report, tier: Tier) {
         json!({
             "method": "two real Medium::Ieee802154 interfaces; oracle = independent 802.15.4/FRAG1/FRAGN/IPHC/UDP-NHC decoder + independent checksum verifier on every reassembled datagram emitted by either interface (the peer interface is only a stimulus generator)",
             "scenarios": list.len(), "max_burst_size": "tcp scenarios also with max_burst_size 1 and 4 and 16 KiB receive buffers (the 6LoWPAN emit path does not apply the window clamp; recorded for completeness)", "kinds": "echo (request + auto reply), udp both directions, udp to closed port (ICMPv6 port unreachable), tcp (SYN, SYN-ACK, data both ways, ACK, FIN)",
-            "addressing": "link-local (addresses elided in IPHC) and fd00::/64 (addresses in-line)",
+            "addressing": "5 source/destination address pairs: fe80::/64 (elided in IPHC), fd00::/64 (in-line), and link-local-looking addresses with a non-zero bit among bits 10..63 (fe80:0:0:1::1, fe80:1::1234, febf::1; IID derived / not derived from the hardware address) whose transport checksum is verified after the harness's own RFC 6282 decompression of what is on the air",
             "payload_sizes": format!("0..={} ascending, a few large sizes up to the reassembly limit, then all descending, in ONE world per scenario (stale fragmentation buffer content)", dense),
             "sends": st.sends, "polls": st.polls, "frames_decoded": st.frames, "datagrams_verified": st.datagrams, "per_class": st.counts,
         }),
@@ -743,7 +832,7 @@ pub fn run(rep: &mut Report, tier: Tier) {
 pub fn replay(r: &Value) -> i32 {
     let s = LScn {
         kind: r["kind"].as_str().unwrap_or("echo").to_string(),
-        global: r["global"].as_bool().unwrap_or(false),
+        addr: r["addr"].as_u64().unwrap_or(0) as u8,
         sizes: r["sizes"].as_array().map(|a| a.iter().map(|x| x.as_u64().unwrap_or(0) as usize).collect()).unwrap_or_default(),
         caps: Caps::from_json(&r["caps"]),
         burst: r["max_burst_size"].as_u64().unwrap_or(0) as usize,
